@@ -139,11 +139,14 @@ theorem mem_isort {α : Type} (le : α → α → Bool) (x : α) (l : List α) :
   | nil => simp [isort]
   | cons a t ih => simp [isort, mem_insertBy, ih]
 
-/-- `SortServicesByCreationTime` comparator: (creation time, name, namespace). -/
+/-- `SortServicesByCreationTime` comparator: (creation time, name, namespace, object name, hostname). -/
 def svcLe (a b : Svc) : Bool :=
   if a.ctime != b.ctime then a.ctime < b.ctime
   else if a.name != b.name then a.name < b.name
-  else !(b.ns < a.ns)
+  else if a.ns != b.ns then a.ns < b.ns
+  -- /repo 38ac9fa: then the object name (the harness tag) and the hostname
+  else if a.id != b.id then a.id < b.id
+  else !(b.hostname < a.hostname)
 
 /-- `SortServicesByCreationTime` (stable). -/
 def sortServices (l : List Svc) : List Svc := isort svcLe l
